@@ -34,19 +34,88 @@ def _names_in(node):
     return {n.id for n in ast.walk(node) if isinstance(n, ast.Name)}
 
 
-def find_integrality_blocks(fi):
-    """[(if_node, L_name, verdict dict)] for integrality blocks in a function."""
+def _filter_comp(v):
+    """(comp, generator) when v is `[x for x in <it> if <x.domain is not continuous>]`."""
+    if isinstance(v, ast.ListComp) and len(v.generators) == 1:
+        g = v.generators[0]
+        if any(_is_noncontinuous_test(cond, g.target) for cond in g.ifs):
+            return v, g
+    return None
+
+
+def _remote_filter(prog, v):
+    """The non-continuous list obtained from the model object: `<p>.name` / `<p>.name()` where exactly one class of the
+    package defines property/method `name` and it returns the domain filter over its own variables -- directly
+    ('fresh': computed on every call) or from an attribute every non-empty store of which is that filter ('cached').
+    -> (kind, comp, generator, FuncInfo of the place of the comprehension, attr) or None."""
+    name = None
+    if isinstance(v, ast.Attribute):
+        name = v.attr
+    elif isinstance(v, ast.Call) and isinstance(v.func, ast.Attribute) and not v.args and not v.keywords:
+        name = v.func.attr
+    if name is None or prog is None:
+        return None
+    owners = [c for c in prog.classes.values() if name in c.methods]
+    if len(owners) != 1:
+        return None
+    m = owners[0].methods[name]
+    rets = [r.value for r in walk_local(m.node, include_self=False) if isinstance(r, ast.Return) and r.value is not None]
+    if not rets:
+        return None
+    found = None
+    masg = local_assignments(m.node)
+    for r in rets:
+        if isinstance(r, ast.Name) and len([x for x in masg.get(r.id, []) if isinstance(x, ast.AST)]) == 1:
+            r = masg[r.id][0]
+        fc = _filter_comp(r)
+        if fc is not None:
+            cur = ("fresh", fc[0], fc[1], m, None)
+        elif isinstance(r, ast.Attribute) and dotted(r.value) == "self":
+            stores = []
+            for g in owners[0].methods.values():
+                for n in walk_local(g.node, include_self=False):
+                    if isinstance(n, (ast.Assign, ast.AnnAssign)) and getattr(n, "value", None) is not None:
+                        tg = n.targets if isinstance(n, ast.Assign) else [n.target]
+                        if any(isinstance(t, ast.Attribute) and dotted(t.value) == "self" and t.attr == r.attr for t in tg):
+                            val = n.value
+                            empty = (isinstance(val, ast.Constant) and val.value is None) or (isinstance(val, (ast.List, ast.Tuple)) and not val.elts)
+                            if not empty:
+                                stores.append((g, val))
+            if not stores or any(_filter_comp(val) is None for _g, val in stores):
+                return None
+            g0, val0 = stores[0]
+            fc = _filter_comp(val0)
+            cur = ("cached", fc[0], fc[1], g0, r.attr)
+        else:
+            return None
+        if found is not None and found[0] != cur[0]:
+            return None
+        found = cur
+    return found
+
+
+def find_integrality_blocks(fi, prog=None):
+    """([(if_node, L_name, (comp, generator, extra tests))], assigns) for the integrality blocks of a function.  The list L
+    is a filter comprehension on `.domain` in the function itself, or obtained from the model object (see _remote_filter);
+    comp carries `_owner` (FuncInfo holding the comprehension) and `_cached_attr` in the second case.  `unresolved` (third
+    item, only when asked through ``prog``) lists locals that guard an IntegerVariableError raise / relaxation warning but
+    whose origin this rule cannot follow."""
     assigns = local_assignments(fi.node)
-    # L: list comprehension filtering on `.domain`
     cands = {}
     for nm, vals in assigns.items():
         for v in vals:
-            if isinstance(v, ast.ListComp) and len(v.generators) == 1:
-                g = v.generators[0]
-                for cond in g.ifs:
-                    if _is_noncontinuous_test(cond, g.target):
-                        cands[nm] = (v, g)
+            fc = _filter_comp(v) if isinstance(v, ast.AST) else None
+            if fc is not None:
+                cands[nm] = fc
+                continue
+            rf = _remote_filter(prog, v) if isinstance(v, ast.AST) else None
+            if rf is not None:
+                kind, comp, gen, owner, attr = rf
+                comp._owner = owner
+                comp._cached_attr = attr if kind == "cached" else None
+                cands[nm] = (comp, gen)
     blocks = []
+    unresolved = []
     for n in walk_local(fi.node, include_self=False):
         if isinstance(n, ast.If):
             nm = None
@@ -60,6 +129,13 @@ def find_integrality_blocks(fi):
                     extra.append(t)
             if nm:
                 blocks.append((n, nm, cands[nm] + (extra,)))
+            elif any(isinstance(x, ast.Raise) and isinstance(x.exc, ast.Call) and (dotted(x.exc.func) or "").endswith("IntegerVariableError") for st in n.body for x in ast.walk(st)):
+                names = [t.id for t in conjuncts(n.test) if isinstance(t, ast.Name)] + [t.left.args[0].id for t in conjuncts(n.test) if isinstance(t, ast.Compare) and isinstance(t.left, ast.Call) and dotted(t.left.func) == "len" and t.left.args and isinstance(t.left.args[0], ast.Name)]
+                names = [x for x in names if x != "strict"]
+                if names:
+                    unresolved.append((n, names[0]))
+    if prog is not None:
+        fi._integrality_unresolved = unresolved
     return blocks, assigns
 
 
@@ -117,9 +193,25 @@ def _wellformed(rep, fi, blocks, assigns, report=True, via_helper=False):
                "the block runs whenever the filtered list is non-empty" if not extra else
                f"the block is additionally guarded by `{src(extra[0])}`: when that is false, non-continuous variables are relaxed with no signal",
                loc=f"{fi.module.rel}:{ifn.lineno}", detail="unconditional")
+        # a list kept on the model object is as old as the cache it lives in: Variable.domain is a public mutable slot
+        cached_attr = getattr(comp, "_cached_attr", None)
+        owner = getattr(comp, "_owner", None)
+        if owner is not None:
+            rep.ob("R18.1", construct, cached_attr is None,
+                   f"the non-continuous list is computed on every call by {owner.qual.split(':')[1]}" if cached_attr is None else
+                   f"the non-continuous list '{L}' is read from the stored attribute {owner.cls.name if owner.cls else '?'}.{cached_attr} (filled in {owner.qual.split(':')[1]} and refreshed only when the model is edited): "
+                   f"a variable whose domain is set to integer/binary after the list was filled is relaxed without raise or warning, and one set back to continuous still raises",
+                   loc=f"{owner.module.rel}:{comp.lineno}", detail="filter-is-current", robust=True)
         # source of the comprehension: problem.variables (possibly through a local)
         it = gen.iter
         src_ok = False
+        if owner is not None:
+            oasg = local_assignments(owner.node)
+            it_ = it
+            if isinstance(it_, ast.Name) and len([x for x in oasg.get(it_.id, []) if isinstance(x, ast.AST)]) == 1:
+                it_ = oasg[it_.id][0]
+            if isinstance(it_, ast.Attribute) and dotted(it_.value) == "self" and it_.attr in ("variables", "_variables"):
+                src_ok = True
         if isinstance(it, ast.Attribute) and it.attr == "variables":
             src_ok = True
         if isinstance(it, ast.Name):
@@ -309,7 +401,7 @@ def check(prog, rep):
     for h in prog.functions.values():
         if h.qual in entries or not h.module.name.startswith("optyx.solvers") or h.parent is not None:
             continue
-        blocks_h, assigns_h = find_integrality_blocks(h)
+        blocks_h, assigns_h = find_integrality_blocks(h, prog)
         if not blocks_h:
             continue
         good_h = _wellformed(rep, h, blocks_h, assigns_h, report=True, via_helper=True)
@@ -320,8 +412,12 @@ def check(prog, rep):
 
     for qual, (fi, sites) in sorted(entries.items()):
         fname = qual.split(":")[1]
-        blocks, assigns = find_integrality_blocks(fi)
+        blocks, assigns = find_integrality_blocks(fi, prog)
         calls_helper = [c for c in calls(fi.node) if dotted(c.func) in helper_ok]
+        if not blocks and not calls_helper and getattr(fi, "_integrality_unresolved", None):
+            ifn_, nm_ = fi._integrality_unresolved[0]
+            rep.undecided(f"{fname}: `if {src(ifn_.test)[:40]}:` raises IntegerVariableError, but where the list `{nm_}` comes from ({'; '.join(src(v)[:40] for v in assigns.get(nm_, []) if isinstance(v, ast.AST))[:80]}) is not a domain filter this rule can follow")
+            continue
         if not blocks and not calls_helper:
             for c, which in sites:
                 rep.ob("R18.1", f"{fname}:{which.split('.')[-1]}", False,
@@ -459,12 +555,13 @@ def check(prog, rep):
     block_lines = set()
     block_owners = [fi for _q, (fi, _s) in entries.items()] + [h for h in prog.functions.values() if h.name in helper_ok]
     for fi in block_owners:
-        blocks, _a = find_integrality_blocks(fi)
+        blocks, _a = find_integrality_blocks(fi, prog)
         for ifn, L, (comp, gen, _extra) in blocks:
-            block_lines.add((fi.module.name, comp.lineno))
+            mod_ = getattr(comp, "_owner", fi).module.name
+            block_lines.add((mod_, comp.lineno))
             for x in ast.walk(comp):
                 if hasattr(x, "lineno"):
-                    block_lines.add((fi.module.name, x.lineno))
+                    block_lines.add((mod_, x.lineno))
     others = []
     for fi in prog.functions.values():
         if fi.module.name in allowed_mods:
